@@ -129,6 +129,57 @@ def index_replay(ctx: Ctx) -> int:
     return n
 
 
+def _conv_job(cases):
+    from harness.convjobs import run_cases
+
+    return run_cases(cases)
+
+
+def conv_replay(ctx: Ctx) -> int:
+    """J2O_Conv: window stride / input dilation / kernel dilation / padding along one axis; Conv vs ConvTranspose lowering."""
+    r = run_tlc("MC_Conv", "MC_Conv.cfg", timeout=900, workers=4)
+    tlc_must_pass(r, "J2O_Conv")
+    ctx.add_tlc(r, "J2O_Conv (LoweringSound, LengthLaw)")
+    if r.violated:
+        raise MachineryError(f"J2O_Conv: {r.violated} violated")
+    cleanup_tlc(r)
+    for dev in ("transpose_stride_one", "pads_not_converted", "kernel_not_flipped"):
+        rd = run_tlc("MC_Conv", f"MC_ConvDev_{dev}.cfg", timeout=600, workers=2, coverage=False)
+        if rd.violated != "LoweringSound":
+            raise MachineryError(f"J2O_Conv deviation {dev} should violate LoweringSound (non-vacuity), got {rd.violated!r}")
+        cleanup_tlc(rd)
+    re_ = run_tlc("MC_Conv", "MC_ConvEmit.cfg", timeout=600, workers=1, coverage=False)
+    cases = parse_tlc_values(re_.output.splitlines())
+    cleanup_tlc(re_)
+    if len(cases) < 100:
+        raise MachineryError("J2O_Conv emitted too few cases")
+    k = 4
+    res = run_tasks([{"fn": "harness.checks.c01:_conv_job", "args": {"cases": cases[i::k]}, "timeout": 1500} for i in range(k)], nworkers=k, timeout=3000)
+    n = 0
+    refused = {"supported": 0, "unsupported": 0}
+    for task, out in res:
+        if out.get("status") != "ok":
+            raise MachineryError(f"conv replay worker failed: {str(out)[:700]}")
+        o = out["result"]
+        n += o["n"]
+        if o["spec_vs_jax"]:
+            raise MachineryError("J2O_Conv disagrees with JAX eager (specification bug): " + json.dumps(o["spec_vs_jax"][:2])[:600])
+        for ef in o["export_failed"]:
+            refused["supported" if ef["supported"] else "unsupported"] += 1
+            if ef["supported"]:
+                ctx.extra.setdefault("conv_supported_cases_refused", []).append({"case": ef["case"], "error": ef["error"][:140]})
+        for pb in o["problems"]:
+            c = pb["case"]
+            ctx.violation({"engine": "conv_kernel", "stride": c["stride"], "ldil": c["ldil"], "rdil": c["rdil"], "plo": c["plo"], "phi": c["phi"], "k": len(c["w"]), "layout": pb["layout"], "what": pb["what"]},
+                          f"conv_general_dilated(window_stride={c['stride']}, lhs_dilation={c['ldil']}, rhs_dilation={c['rdil']}, padding=({c['plo']},{c['phi']}), kernel {c['w']}, {pb['layout']}): {pb['detail'][:260]}", pb)
+        for c in task["args"]["cases"]:
+            ctx.count(("conv", json.dumps(c["c"], sort_keys=True)), nontrivial=True, n=0)
+    ctx.extra["conv_cases_run"] = n
+    ctx.extra["conv_refused_loudly"] = refused
+    ctx.cov["evaluations"] += n
+    return n
+
+
 def _fusion_job(cases):
     from harness.fusionjobs import run_cases
 
@@ -246,6 +297,7 @@ def run(ctx: Ctx) -> None:
     axis_operator_replay(ctx, "direct", "axis_direct")
     index_replay(ctx)
     fusion_replay(ctx)
+    conv_replay(ctx)
     ctx.extra["corpus_status"] = stats
     ctx.extra["input_vectors_compared"] = draws
     ctx.extra["lattice_draws_outside_domain"] = discarded
